@@ -1,8 +1,225 @@
-/- Driver operations of the Routine model (stub until the model lands). -/
+/-
+  Driver operations of the routine-tree validator (Model/Routine.lean, Props/C05.lean).
+
+    routine.validate  {"dir":"u"|"m", "ty":Ty, "tree":Node, "keys"?:[Ty]}  → {"adequate":bool, "path":str|null}
+    routine.graph     {"dir":…, "graph":[[Ty, Node], …]}                    → {"adequate":bool, "entry":int|null, "path":…}
+    routine.run       {"dir":…, "tree":Node, "val":Val}                     → {"ok":Val} | {"err":class}
+
+  `Node` is what harness/routines_extract.py writes for a real routine object: its class name and public
+  attributes, nothing interpreted: {"c":class, "t":Ty|null, "tr":repr(t), "o":origin, "values":…,
+  "keys":…, "rs":[…], "nullable":bool, "fields":[[name, Node]…], "required":[…]}.  The decoder below
+  maps (class, attributes) to the `Routine` constructor whose semantics is that class's `__call__`;
+  anything it does not recognise becomes `.unknown`, which the validator rejects.
+
+  The environment of the driver state and the annotation are wrapper-erased here (`eraseEnv`, `erase`).
+  The verdict is the proved validator's (`adequate` / `graphOk`); `path` is a diagnostic only.
+-/
 import TypelibModel.Drv.Core
+import TypelibModel.Model.Routine
 open Lean
 namespace Typelib.Drv
+namespace RoutineOps
 
-def handleRoutine (_st : St) (_op : String) (_j : Json) : Option (Except String (St × Json)) := none
+def dirOfJson (j : Json) : Except String Dir :=
+  match j.getObjValAs? String "dir" with
+  | .ok "u" => .ok .u
+  | .ok "m" => .ok .m
+  | _ => .error "dir must be \"u\" or \"m\""
+
+def collOfOrigin : String → Option Coll
+  | "list" => some .list | "set" => some .set | "frozenset" => some .frozenset
+  | "deque" => some .deque | "tuple" => some .vartuple
+  | _ => none
+
+def optTy (j : Json) : Option Ty :=
+  match j.getObjVal? "t" with
+  | .ok .null => none
+  | .ok tj => (tyOfJson tj).toOption
+  | .error _ => none
+
+def strField (j : Json) (k : String) : String := (j.getObjValAs? String k).toOption.getD ""
+
+def arrField (j : Json) (k : String) : Except String (List Json) :=
+  match j.getObjVal? k with
+  | .ok (.arr a) => .ok a.toList
+  | _ => .error s!"node without list attribute {k}"
+
+def sfx (d : Dir) : String := match d with | .u => "Unmarshaller" | .m => "Marshaller"
+
+/-- (class name, public attributes) ↦ the constructor whose semantics is that class's `__call__`. -/
+partial def routineOfJson (d : Dir) (j : Json) : Except String Routine := do
+  let c ← j.getObjValAs? String "c"
+  let t := optTy j
+  let tr := strField j "tr"
+  let unknown : Routine := .unknown (S s!"{c}({tr})")
+  if c == "Delayed" ++ sfx d then
+    match t with
+    | some t' => pure (.delayed t')
+    | none => pure (.unknown (S s!"{c} -> {tr}"))
+  else if c == "NoOp" ++ sfx d then
+    match d, t with
+    | .m, some (.scalar .bytes) => pure (.leaf .bytes)
+    | _, _ => pure .noop
+  else if c == "NoneType" ++ sfx d then pure .none
+  else if c == "Literal" ++ sfx d then
+    let vs ← (← arrField j "values").mapM valOfJson
+    pure (.literal vs)
+  else if c == "Union" ++ sfx d then
+    let rs ← (← arrField j "rs").mapM (routineOfJson d)
+    let nb := match d with
+      | .u => false
+      | .m => (j.getObjValAs? Bool "nullable").toOption.getD false
+    pure (.union nb rs)
+  else if c == "SubscriptedIterable" ++ sfx d then
+    match collOfOrigin (strField j "o") with
+    | none => pure unknown
+    | some k => pure (.coll k (← routineOfJson d (← j.getObjVal? "values")))
+  else if c == "FixedTuple" ++ sfx d then
+    pure (.tuple (← (← arrField j "rs").mapM (routineOfJson d)))
+  else if c == "SubscriptedMapping" ++ sfx d then
+    if strField j "o" == "dict" then
+      pure (.dict (← routineOfJson d (← j.getObjVal? "keys")) (← routineOfJson d (← j.getObjVal? "values")))
+    else pure unknown
+  else if c == "StructuredType" ++ sfx d then
+    match t with
+    | some (.cls cid) =>
+      let fs ← (← arrField j "fields").mapM fun f =>
+        match f with
+        | .arr #[.str k, n] => do pure (S k, (← routineOfJson d n))
+        | _ => .error "struct field"
+      let req ← match j.getObjVal? "required" with
+        | .ok (.arr rs) => rs.toList.mapM jStr
+        | _ => pure []
+      pure (.struct cid fs req)
+    | _ => pure unknown
+  else
+    match d, t with
+    | .u, some (.enum cid) => if c == "CastUnmarshaller" then pure (.enumCast cid) else pure unknown
+    | .m, some (.enum cid) => if c == "EnumMarshaller" then pure (.enumCast cid) else pure unknown
+    | .u, some (.scalar s) => if c == leafClassU s then pure (.leaf s) else pure unknown
+    | .m, some (.scalar s) => if c == leafClassM s then pure (.leaf s) else pure unknown
+    | _, _ => pure unknown
+
+partial def tyShow : Ty → String
+  | .scalar s => scalarKey s
+  | .none => "None"
+  | .any => "Any"
+  | .enum c => s!"enum#{c}"
+  | .literal vs => s!"Literal[{vs.length} values]"
+  | .coll k e =>
+    let ks := match k with
+      | .list => "list" | .set => "set" | .frozenset => "frozenset" | .deque => "deque" | .vartuple => "tuple[...]"
+    s!"{ks}[{tyShow e}]"
+  | .tuple es => "tuple[" ++ ", ".intercalate (es.map tyShow) ++ "]"
+  | .dict k v => s!"dict[{tyShow k}, {tyShow v}]"
+  | .union ms => "Union[" ++ ", ".intercalate (ms.map tyShow) ++ "]"
+  | .cls c => s!"class#{c}"
+  | .wrap _ t => s!"wrap({tyShow t})"
+
+def rShow : Routine → String
+  | .leaf s => s!"leaf:{scalarKey s}"
+  | .none => "NoneType"
+  | .noop => "NoOp"
+  | .literal vs => s!"Literal[{vs.length} values]"
+  | .enumCast c => s!"enum#{c}"
+  | .union nb rs => s!"Union(nullable={nb}, {rs.length} routines)"
+  | .coll _ _ => "SubscriptedIterable"
+  | .tuple rs => s!"FixedTuple({rs.length} routines)"
+  | .dict _ _ => "SubscriptedMapping"
+  | .struct c fs req => s!"StructuredType(class#{c}, fields={fs.map (fun p => U p.1)}, required={req.map U})"
+  | .delayed t => s!"Delayed -> {tyShow (erase t)}"
+  | .unknown tag => s!"unrecognised {U tag}"
+
+/-- Diagnostic: path of the first (deepest, leftmost) node the validator rejects. -/
+partial def firstFail (d : Dir) (K : Ty → Bool) (env : Env) (t : Ty) (r : Routine) (path : String) : Option String :=
+  if adequate d K env t r then none
+  else
+    let here := some s!"{path}: annotation {tyShow t} served by {rShow r}"
+    let rec goList (ts : List Ty) (rs : List Routine) (i : Nat) : Option String :=
+      match ts, rs with
+      | t :: ts', r :: rs' =>
+        match firstFail d K env t r s!"{path}[{i}]" with
+        | some p => some p
+        | none => goList ts' rs' (i + 1)
+      | _, _ => none
+    let rec goFields (ts : List (Str × Ty)) (rs : List (Str × Routine)) : Option String :=
+      match ts, rs with
+      | (a, t) :: ts', (b, r) :: rs' =>
+        if a != b then some s!"{path}: field {U b} where the class declares {U a}"
+        else match firstFail d K env t r s!"{path}.{U a}" with
+          | some p => some p
+          | none => goFields ts' rs'
+      | _, _ => none
+    let deeper : Option String :=
+      match t, r with
+      | .coll _ e, .coll _ r' => firstFail d K env e r' s!"{path}[*]"
+      | .tuple es, .tuple rs => goList es rs 0
+      | .dict k v, .dict rk rv =>
+        match firstFail d K env k rk s!"{path}.keys" with
+        | some p => some p
+        | none => firstFail d K env v rv s!"{path}.values"
+      | .union ms, .union _ rs => goList (unionMembers d ms) rs 0
+      | .cls c, .struct _ fs _ => goFields (fieldsOf env c) fs
+      | _, _ => none
+    match deeper with
+    | some p => some p
+    | none => here
+
+def optStr : Option String → Json
+  | some s => .str s
+  | none => .null
+
+def keysOfJson (j : Json) : Except String (Option (List Ty)) :=
+  match j.getObjVal? "keys" with
+  | .ok (.arr ks) => do pure (some ((← ks.toList.mapM tyOfJson).map erase))
+  | _ => pure none
+
+end RoutineOps
+
+open RoutineOps in
+def handleRoutine (st : St) (op : String) (j : Json) : Option (Except String (St × Json)) :=
+  match op with
+  | "routine.validate" => some do
+    let d ← dirOfJson j
+    let t := erase (← tyOfJson (← j.getObjVal? "ty"))
+    let r ← routineOfJson d (← j.getObjVal? "tree")
+    let env := eraseEnv st.env
+    let K : Ty → Bool := match (← keysOfJson j) with
+      | some ks => fun t => ks.any (fun k => Ty.beq k t)
+      | none => anyTarget
+    let ok := adequate d K env t r
+    pure (st, Json.mkObj [("adequate", .bool ok),
+      ("path", if ok then .null else optStr (firstFail d K env t r "root"))])
+  | "routine.graph" => some do
+    let d ← dirOfJson j
+    let env := eraseEnv st.env
+    let entries ← (← arrField j "graph").mapM fun e =>
+      match e with
+      | .arr #[tj, n] => do pure (erase (← tyOfJson tj), (← routineOfJson d n))
+      | _ => .error "graph entry"
+    let g : RGraph := entries
+    let ok := graphOk d env g
+    let rec find (es : List (Ty × Routine)) (i : Nat) : Option (Nat × String) :=
+      match es with
+      | [] => none
+      | (t, r) :: rest =>
+        if r.isDelayed then some (i, s!"root: the tree of {tyShow t} is itself a Delayed proxy")
+        else match firstFail d g.hasKey env t r "root" with
+          | some p => some (i, p)
+          | none => find rest (i + 1)
+    let bad := if ok then none else find g 0
+    pure (st, Json.mkObj [("adequate", .bool ok),
+      ("entry", match bad with | some (i, _) => jN i | none => .null),
+      ("path", optStr (bad.map Prod.snd))])
+  | "routine.run" => some do
+    let d ← dirOfJson j
+    let r ← routineOfJson d (← j.getObjVal? "tree")
+    let v ← valOfJson (← j.getObjVal? "val")
+    let env := eraseEnv st.env
+    let L := pyLeaves env
+    match d with
+    | .u => pure (st, resToJson (runU env L st.fuel r v))
+    | .m => pure (st, resToJson (runM env L st.fuel r v))
+  | _ => none
 
 end Typelib.Drv
